@@ -240,7 +240,9 @@ impl ThreadPool {
     {
         let old = sim::workers();
         sim::set_workers(self.n);
-        let r = catch_unwind(AssertUnwindSafe(op));
+        // `install` runs the closure on one of the pool's threads
+        let me = sim::thread_index().unwrap_or(0) % self.n.max(1);
+        let r = catch_unwind(AssertUnwindSafe(|| sim::as_pool_worker(me, op)));
         sim::set_workers(old);
         match r {
             Ok(r) => r,
